@@ -44,7 +44,7 @@ def obligations(tier, scratch):
 
     quick = tier == "quick"
     path = os.path.join(scratch, "gen_c06.py")
-    src = ["from checks.c06_lib import run, run_coalesced, codec, activation", ""]
+    src = ["from checks.c06_lib import run, run_coalesced, codec, activation, activation_uri", ""]
     obs = []
     for tag, script, reads in SCRIPTS:
         n = len(script)
@@ -120,6 +120,21 @@ def {name}(srcaddr: int, atype: int, ver: int, code: int, at: int) -> bool:
 ''')
         obs.append({"name": name, "module_path": path, "function": name, "cap": 900, "opaque": True, "twin_cap": 120,
                     "meta": {"function": "DoIPTransport._connect", "symbolic": "source address, " + tag + ", response instant"}})
+    for tag, uri, vals in (("hex", "doip://192.0.2.5:13400?src_addr=0x0e00&target_addr=0x1d&activation_type=0xe1&protocol_version=0x02", (0x0E00, 0x1D, 0xE1, 2)),
+                           ("dec", "doip://[2001:db8::5]?src_addr=3584&target_addr=29", (3584, 29, 1, 3)),
+                           ("mixed", "doip://gw.example:13401?src_addr=0o7000&target_addr=0b11101&activation_type=0", (0o7000, 0b11101, 0, 3))):
+        name = f"connect_uri_{tag}"
+        src.append(f'''
+def {name}(code: int, at: int) -> bool:
+    """
+    pre: 0 <= code <= 255
+    pre: 0 <= at <= 3000000
+    post: _
+    """
+    return activation_uri({uri!r}, {vals[0]}, {vals[1]}, {vals[2]}, {vals[3]}, code, at)
+''')
+        obs.append({"name": name, "module_path": path, "function": name, "cap": 600, "opaque": True, "twin_cap": 120,
+                    "meta": {"entry": "DoIPTransport.connect(" + uri + ")", "symbolic": "response code (all 256), response instant"}})
     with open(path, "w") as f:
         f.write("\n".join(src))
     return obs
